@@ -632,21 +632,43 @@ C04_SubTopologyOneDomain ==
 (* from FairShareContract.                                                  *)
 (***************************************************************************)
 FS == INSTANCE FairShareContract WITH Scale <- 1000, Slack <- 2
+\* cpu (milli-cores) and memory (MB): the rounding unit of the division is 1 milli-core / 1 byte
+FS1 == INSTANCE FairShareContract WITH Scale <- 1, Slack <- 2
 PresentQ == {q \in Queues : qi.q[q].present = 1}
 ChildrenOf(par) == {c \in PresentQ : Q(c).parent = par}
 ChildSeq(par) == SetToSortSeq(ChildrenOf(par), <)
-FsInput(par) ==
-  LET cs == ChildSeq(par) IN
-  [ total |-> IF par = 0 THEN qi.totG ELSE qi.q[par].fsG, kn |-> qi.k, kd |-> 1000,
-    queues |-> [i \in 1..Len(cs) |-> [des |-> qi.q[cs[i]].desG, lim |-> qi.q[cs[i]].limG, w |-> qi.q[cs[i]].w,
-                                      prio |-> Q(cs[i]).prio, req |-> qi.q[cs[i]].reqG, use |-> qi.q[cs[i]].useG]] ]
-FsResult(par) == LET cs == ChildSeq(par) IN [i \in 1..Len(cs) |-> qi.q[cs[i]].fsG]
-FsWants(par) == LET inp == FsInput(par)  fs == FsResult(par) IN
-                [i \in 1..Len(fs) |-> IF fs[i] < FS!CapReq(inp, i) THEN 1 ELSE 0]
+\* one record per resource: the logged fields of a queue (deserved, limit, request, usage, fair share)
+ResFields == [ G |-> [des |-> "desG", lim |-> "limG", req |-> "reqG", use |-> "useG", fs |-> "fsG", tot |-> "totG"],
+               C |-> [des |-> "desC", lim |-> "limC", req |-> "reqC", use |-> "useC", fs |-> "fsC", tot |-> "totC"],
+               M |-> [des |-> "desM", lim |-> "limM", req |-> "reqM", use |-> "useM", fs |-> "fsM", tot |-> "totM"] ]
+HasRes(r) == ResFields[r].tot \in DOMAIN qi /\ \A q \in PresentQ : ResFields[r].lim \in DOMAIN qi.q[q]
+FsInputR(par, r) ==
+  LET cs == ChildSeq(par)  f == ResFields[r] IN
+  [ total |-> IF par = 0 THEN qi[f.tot] ELSE qi.q[par][f.fs], kn |-> qi.k, kd |-> 1000,
+    queues |-> [i \in 1..Len(cs) |-> [des |-> qi.q[cs[i]][f.des], lim |-> qi.q[cs[i]][f.lim], w |-> qi.q[cs[i]].w,
+                                      prio |-> Q(cs[i]).prio, req |-> qi.q[cs[i]][f.req], use |-> qi.q[cs[i]][f.use]]] ]
+FsResultR(par, r) == LET cs == ChildSeq(par) IN [i \in 1..Len(cs) |-> qi.q[cs[i]][ResFields[r].fs]]
+FsWantsR(par, r) == LET inp == FsInputR(par, r)  fs == FsResultR(par, r) IN
+                    [i \in 1..Len(fs) |-> IF fs[i] < FS!CapReq(inp, i) THEN 1 ELSE 0]
+FsInput(par) == FsInputR(par, "G")
+FsResult(par) == FsResultR(par, "G")
+FsWants(par) == FsWantsR(par, "G")
 Parents == {0} \cup {q \in PresentQ : ChildrenOf(q) # {}}
 C09_SessionContract ==
   qi # <<>> => \A par \in Parents :
      ChildrenOf(par) # {} => FS!Contract(FsInput(par), FsResult(par), FsWants(par))
+\* the same for cpu and memory (the bounds of the contract; the distribution clauses are judged on GPUs and on
+\* the division function itself, whose rounding of cpu / memory amounts is below the logged unit)
+C09_SessionContractCpu ==
+  (qi # <<>> /\ HasRes("C")) => \A par \in Parents :
+     ChildrenOf(par) # {} => /\ FS1!C09c_Lower(FsInputR(par, "C"), FsResultR(par, "C"))
+                             /\ FS1!C09c_Upper(FsInputR(par, "C"), FsResultR(par, "C"))
+                             /\ FS1!C09c_Conservation(FsInputR(par, "C"), FsResultR(par, "C"))
+C09_SessionContractMem ==
+  (qi # <<>> /\ HasRes("M")) => \A par \in Parents :
+     ChildrenOf(par) # {} => /\ FS1!C09c_Lower(FsInputR(par, "M"), FsResultR(par, "M"))
+                             /\ FS1!C09c_Upper(FsInputR(par, "M"), FsResultR(par, "M"))
+                             /\ FS1!C09c_Conservation(FsInputR(par, "M"), FsResultR(par, "M"))
 
 (***************************************************************************)
 (* C13 (as observable on the Cache calls of real cycles): committing emits  *)
